@@ -90,6 +90,14 @@ func vObserveB(n string, b []byte) {
 }
 func vKnown(id string, c bool) bool { return c }
 func vGo(name string, f func())     { go f() }
+func vSeqPart(key, prefix string, idx int) uint64 {
+	parts := strings.Split(strings.TrimPrefix(key, prefix), "-")[1:]
+	var n uint64
+	if idx < len(parts) {
+		fmt.Sscanf(parts[idx], "%d", &n)
+	}
+	return n
+}
 
 // vYield: when a schedule was recorded, block until this id is at the head of the sequence.
 func vYield(id string) {
